@@ -48,6 +48,15 @@ def c_filter(chk, g, drv, jobs):
         a, b = gtis[int(g.integers(0, len(gtis)))]
         if b - a >= 4:
             gtis = gtis + [(a + (b - a) // 4, b - (b - a) // 4)] if g.uniform() < 0.5 else gtis + [(a + (b - a) // 2, min(stop, b + (b - a) // 2))]
+    if r > 0.85:
+        # a long observation whose good time misses the span by a hair (a gap of microseconds to milliseconds in hours): times in the gap are out
+        s0 = int(g.integers(0, 2 ** 26)) * 2 ** 12
+        span = int(g.integers(2 ** 30, 2 ** 34))
+        cut = s0 + int(g.integers(span // 8, 7 * span // 8))
+        gap = int(g.integers(2, 2 ** 10))
+        stop = s0 + span
+        gtis = [(s0, cut), (cut + gap, stop)]
+        ts = [cut, cut + gap, cut + 1, cut + gap - 1, cut + gap // 2] + [int(x) for x in g.integers(s0, stop, 12)]
     gl = xGTIList(s0 * TICK, stop * TICK, *[(a * TICK, b * TICK) for a, b in gtis])
     arr = numpy.array(ts, dtype=float) * TICK
     kept, mask = gl.filter_event_times(arr)
